@@ -7,7 +7,7 @@ use proptest::prelude::*;
 use serde_json::{json, Value};
 use unic_locale::{LanguageIdentifier, Locale};
 
-pub const RULE: &str = "Domain: pairs (s, s') where s is a proptest-generated well-formed locale (G2), the same with one injected token-level defect no reordering can repair ('.' inside a subtag or an over-long subtag, inside a variant / attribute / type / tvalue / private tag), or a near-miss byte string (G3, case/separator transforms only); s' is s under a random case mask on ASCII letters, a random '-'/'_' mask, a permutation (with optional duplication) of the variant block and of the attribute block, a permutation of keyword blocks and of tfield blocks (distinct keys), a permutation of the tlang's variants and a swap of the whole -u- and -t- extensions - structural transforms are applied to the AST so both renderings denote the same identifier. Plus, exhaustively, every 'en-' + core-alphabet sequence paired with its upper-cased, '_'-separated image and, when it holds both -u- and -t-, with the image in which the two extensions are swapped. Oracle (metamorphic): both fail, or both parse to == values with identical to_string(), for Locale and (on the language-id part) LanguageIdentifier. Non-trivial = s != s' bytewise and a structural transform moved an element or the masks changed >= 2 positions. Distinctness: enumerated pairs by construction, generated pairs via a hash set over (s, s').";
+pub const RULE: &str = "Domain: pairs (s, s') where s is a proptest-generated well-formed locale (G2), the same with one injected token-level defect no reordering can repair ('.' inside a subtag or an over-long subtag, inside a variant / attribute / type / tvalue / private tag), or a near-miss byte string (G3, case/separator transforms only); s' is s under a random case mask on ASCII letters, a random '-'/'_' mask, a permutation (with optional duplication) of the variant block and of the attribute block, a permutation of keyword blocks and of tfield blocks (distinct keys), a permutation of the tlang's variants and a swap of the whole -u- and -t- extensions - structural transforms are applied to the AST so both renderings denote the same identifier. Plus, exhaustively, every 'en-' + core-alphabet sequence paired with its upper-cased, '_'-separated image and, when it holds both -u- and -t-, with the image in which the two extensions are swapped. Oracle (metamorphic): both fail, or both parse to == values with identical to_string(), for Locale, (on the language-id part) LanguageIdentifier and (on the extension part alone) ExtensionsMap::from_bytes. Non-trivial = s != s' bytewise and a structural transform moved an element or the masks changed >= 2 positions. Distinctness: enumerated pairs by construction, generated pairs via a hash set over (s, s').";
 
 #[derive(Clone, Debug)]
 pub struct Tf {
@@ -218,6 +218,38 @@ pub fn check_ast(a0: &Ast, t: &Tf, st: &mut Stats, mode: Count) {
     let case2 = || pair_case(&l1, &l2);
     compare_li(&l1, &l2, what, st, &case2);
     compare(&l1, &l2, what, st, &case2);
+    // extension part alone, through the ExtensionsMap entry point
+    let (ta, tb) = (a.tokens(), b.tokens());
+    if ta.len() > t1.len() && tb.len() > t2.len() {
+        let e1 = gen::render_tokens(&ta[t1.len()..].to_vec(), a.case_mask >> 3, a.sep_mask >> 3);
+        let e2 = gen::render_tokens(&tb[t2.len()..].to_vec(), b.case_mask >> 5, b.sep_mask >> 5);
+        let case3 = || pair_case(&e1, &e2);
+        compare_ext(&e1, &e2, what, st, &case3);
+    }
+}
+
+fn compare_ext(s: &[u8], s2: &[u8], what: &str, st: &mut Stats, case: &dyn Fn() -> Value) {
+    use unic_locale::extensions::ExtensionsMap;
+    let size = s.len() + s2.len();
+    let a = guard(|| ExtensionsMap::from_bytes(s));
+    let b = guard(|| ExtensionsMap::from_bytes(s2));
+    match (a, b) {
+        (Ok(a), Ok(b)) => match (a, b) {
+            (Err(_), Err(_)) => {}
+            (Ok(x), Ok(y)) => {
+                if x != y || x.to_string() != y.to_string() {
+                    st.fail(format!("extensionsmap:values-differ:{what}"), case(), size, format!("{:?} vs {:?}", x.to_string(), y.to_string()));
+                }
+            }
+            (x, y) => st.fail(
+                format!("extensionsmap:one-parses-one-fails:{what}"),
+                case(),
+                size,
+                format!("s -> {:?}; s' -> {:?}", x.map(|l| l.to_string()).map_err(|e| format!("{e:?}")), y.map(|l| l.to_string()).map_err(|e| format!("{e:?}"))),
+            ),
+        },
+        (Err(p), _) | (_, Err(p)) => st.fail(panic_sig(&p), case(), size, "panic"),
+    }
 }
 
 fn flip(b: &[u8], case2: u64, sep2: u64) -> Vec<u8> {
@@ -327,4 +359,5 @@ pub fn replay(case: &Value, st: &mut Stats) {
     let c = || case.clone();
     compare(&s, &s2, "replay", st, &c);
     compare_li(&s, &s2, "replay", st, &c);
+    compare_ext(&s, &s2, "replay", st, &c);
 }
